@@ -41,7 +41,7 @@ RightState_        == (IsV3 /\ ~Hidden) => RightState(snaps, segs, T, res)
 ArbitrationClear_  == ~cur.direct => ArbitrationClear(snaps, segs, ltx, T, res.used)
 
 \* binding: the real code did what the transcription says
-FixU1 == FALSE      \* TRUE once the repair of finding U1 (segment must belong to the index being assembled) is in the tree
+FixU1 == TRUE       \* TRUE once the repair of finding U1 (segment must belong to the index being assembled) is in the tree
 plan == PlanV3(snaps, segs, T, FixU1)
 Bind_Format_ == (~cur.direct /\ res.used # "?") => (res.used = (IF UseV3(snaps, segs, ltx, T) THEN "v3" ELSE "ltx"))
 Bind_Plan_   == IsV3 => /\ res.err = plan.err
